@@ -100,7 +100,7 @@ m = {
  "engines": [{"name": "gosym", "path": "/verif/gosym", "serves_properties": sorted(checks), "kind_free_text": "go/ssa -> SMT symbolic executor (own code) with z3 4.8.12 back end; path exploration by re-execution; if-conversion of pure regions; native replay via go test -overlay"}],
  "checks": [],
  "not_applicable": [],
- "notes": "C20 is claimed for its configuration half only and C08 for sequential request sequences only (their schedule clauses need the thread layer that was not built; said in each check's level_note and evidence assumptions). C16's space is mostly configuration shape enumerated by the engine's case splits.",
+ "notes": "C08 is claimed for sequential request sequences only; C18 is a predictive query over sequentialised paths; C20's schedule half is explored under a bounded scheduler (said in each check's level_note and evidence assumptions). C16's space is mostly configuration shape enumerated by the engine's case splits.",
 }
 checks["C15"] = dict(
    text="Non-interference by symbolic execution of the real validation (config.ValidateFix / CheckUserInput / ValidateFilterRefs / wstrings.Safe) followed by every real SQL text builder (config.DDL, wpg.Table.DDL/Migrate, dig.Integration.Delete, dig.Filter.Accept reference lookup incl. nested components, dig.Integration.notify, shovel.NewTask application_name): one symbolic byte is appended to each of 20 configuration string positions on the file path and on the dashboard path; whenever the configuration is accepted and a recorded SQL text is a function of the byte, z3 proves the byte is an identifier character. Chain-derived bytes must not influence any SQL text.",
@@ -118,9 +118,9 @@ checks["C19"] = dict(
    technique="go/ssa symbolic execution -> SMT (z3) + structural SSA read of the route table; native replay",
    design="5/C19")
 checks["C20"] = dict(
-   text="CONFIGURATION HALF: symbolic execution of the real loadTasks, Root.AllIntegrations/AllSources/AllSourcesByName, NewTask and options over file/database mixes (name clashes, enabled flags, 1-2 source references incl. unknown, source placement): exactly one task per enabled integration and source with that source's settings and the reference's range, file wins clashes, unknown source is a startup error, context names equal the task's names (C04's stamp source).",
-   note="The schedule half of C20 (Manager.Run/Restart/runTask: previous generation stopped, one runner per pair) is NOT covered: no scheduler-aware encoding of goroutines/channels/WaitGroup was built. Database readers are cut. Shape space enumerated by case splits; numeric settings solver variables.",
-   technique="go/ssa symbolic execution over enumerated configuration mixes -> SMT (z3); native replay",
+   text="Configuration half: symbolic execution of the real loadTasks, Root.AllIntegrations/AllSources/AllSourcesByName, NewTask and options over file/database mixes: exactly one task per enabled integration and source with that source's settings and the reference's range, file wins clashes, unknown source is a startup error, context names equal the task's names. Schedule half: the real Manager.Run/Restart/runTask with real tasks executed under the engine's scheduler (goroutines as engine threads, every synchronisation operation a scheduling point, next-thread choice an enumerated decision): after Restart returns no task of the previous generation issues a source call, the manager holds the new tasks, no deadlock, no goroutine panic.",
+   note="Schedules are enumerated by the engine's path exploration under a preemption budget (0 quick / 1 thorough) and a scheduling-point bound; paths cut at the bound are not counted as held. One restart while the first generation runs; overlapping restarts are not explored. Configuration shape space enumerated by case splits; numeric settings solver variables. Native replay runs real goroutines (timing dependent).",
+   technique="go/ssa symbolic execution; schedules as enumerated decisions of the path exploration (bounded context switches) -> SMT (z3) for data; native replay",
    design="5/C20")
 for pid in sorted(checks):
     c = checks[pid]
